@@ -380,6 +380,11 @@ def cases(rng, ctx):
     ser += [rng.randint(61, 2958465) for _ in range((20000 if thorough else 1200) * scale)]
     for s in ser:
         add({'kind': 'serial', 's': s})
+    # the same whole-day serials arriving as numeric TEXT (a cell or variable holding "2020"): a serial all the same, whatever the
+    # digits look like (1..4 digits look like a year, 6 like yymmdd); oracle only
+    for s in [61, 62, 366, 367, 1000, 1900, 1999, 2000, 2020, 2024, 9999, 10000, 36526, 251231, 991231, 100101, 2958465] + \
+            [rng.randint(61, 9999) for _ in range(40 * scale)] + [rng.randint(61, 2958465) for _ in range(40 * scale)]:
+        add({'kind': 'serial', 's': s, 'text': True})
 
     # (f) pairs
     npairs = (30000 if thorough else 2500) * scale
@@ -611,6 +616,8 @@ def request(c):
             return None          # text with a UTC offset or a fraction of a second, a host datetime with microseconds: oracle only
         return _ev(F_ISO, {'tx': iso_text(c)})
     if k == 'serial':
+        if c.get('text'):
+            return None
         return _ev(F_SER, {'sn': c['s']})
     if k == 'pair':
         return _ev(F_PAIR, {'a': D(*c['a']), 'b': D(*c['b'])})
@@ -681,7 +688,7 @@ def _impl(c):
             res += [call('WEEKDAY', t, ty) for ty in (1, 2, 3)]
         return res
     if k == 'serial':
-        return [call(f, c['s']) for f in ('YEAR', 'MONTH', 'DAY')]
+        return [call(f, str(c['s']) if c.get('text') else c['s']) for f in ('YEAR', 'MONTH', 'DAY')]
     if k == 'pair':
         a, b = D(*c['a']), D(*c['b'])
         return [call('DAYS', b, a)] + [call('DATEDIF', a, b, u) for u in ('d', 'm', 'y', 'ym', 'md', 'yd')]
@@ -766,7 +773,7 @@ def oracle(c, ans):
         dd = datetime.date.fromordinal(BASE_ORD + s)
         want = [dd.year, dd.month, dd.day]
         if not all(same_int(a, w) for a, w in zip(ans, want)):
-            return 'YEAR/MONTH/DAY(%d) = %r, 1899-12-30 + %d days is %r' % (s, ans, s, want)
+            return 'YEAR/MONTH/DAY(%s) = %r, 1899-12-30 + %d days is %r' % (repr(str(s)) if c.get('text') else s, ans, s, want)
         return None
     if k == 'pair':
         return pair_oracle(datetime.date(*c['a']), datetime.date(*c['b']), ans)
